@@ -58,7 +58,8 @@ def directed(rng: random.Random) -> dict:
     g = Gen(rng, rom=rom)
     body: list = []
     if rom == "map":
-        g.map_cfg = rng.choice(g.MAPS)
+        # (the configuration with mirrored battery RAM is drawn more often than the others: moves into the RAM mirror are its point)
+        g.map_cfg = g.MAPS[-1] if rng.random() < 0.3 else rng.choice(g.MAPS)
         body += [{"k": "map", "args": dict(m)} for m in g.map_cfg]
     ram = [0x7E0000, 0x7E2000, 0x7FFFF0]
     if rom == "map":
@@ -68,6 +69,11 @@ def directed(rng: random.Random) -> dict:
                     if rr:
                         ram += [(rr[0] << 16) | (m_["addr_range"][0] + 0x10), (rr[1] << 16) | (m_["addr_range"][0] + 0x1234)]
     body.append({"k": "org", "e": E(g.rom_addr())})
+    mirrored_ram = [(m_["mirror_bank_range"][0] << 16) | (m_["addr_range"][0] + 0x20) for m_ in (g.map_cfg if rom == "map" else []) if m_.get("writable") and m_.get("mirror_bank_range")]
+    if mirrored_ram:
+        # code stored in ROM that runs from the mirror of a RAM range, then back to ROM: the mirror banks are RAM like the banks they mirror
+        body += [{"k": "data", "d": "db", "es": [E(0x11)]}, {"k": "reloc", "e": E(rng.choice(mirrored_ram))}, {"k": "label", "n": "ramq"}, {"k": "data", "d": "dl", "es": [E("ramq")]},
+                 {"k": "org", "e": E(g.rom_addr())}, {"k": "data", "d": "dl", "es": [E("ramq")]}]
     since_reloc: int | None = None       # bytes emitted since the last @= (None: the last move was a *=)
     reloc_to = 0
     for _ in range(rng.randint(3, 12)):
